@@ -297,6 +297,21 @@ Qed.
 
 (* ------------------------------------------------------------------ the generator's full path *)
 
+Lemma gen_full_eq w f g code :
+  data g <> DBBStubs ->
+  gen_full w f g code
+  = match mcode g, calladdr g with
+    | Some _, Some ca => Ok (put_fn w f (redirect g ca))
+    | Some _, None => Stuck SInvalid
+    | None, _ =>
+      if fresh w code then
+        Ok (put_fn (publish w code (KCode f)) f
+                   (mkfn (addr g) (redirect_bytes (addr g) code) (Some code) (Some code) (data g)
+                         (linked g) (S (gens g)) (wrap_entries g)))
+      else Stuck SOracle
+    end.
+Proof. intros H. unfold gen_full. destruct (data g); [reflexivity|reflexivity|congruence]. Qed.
+
 Lemma gen_full_ok w f g0 g code w' :
   Inv w -> get_fn w f = Some g0 ->
   mc_ok (registry w) (undef_addr w) f g -> fn_ext g0 g ->
@@ -308,8 +323,9 @@ Lemma gen_full_ok w f g0 g code w' :
        /\ current_impl w' f = Some (KCode f).
 Proof.
   intros HI H0 Hok Hext Hgen.
-  unfold gen_full in Hgen.
-  destruct (data g) eqn:Ed; try discriminate.
+  assert (Hnb : data g <> DBBStubs).
+  { intros E. unfold gen_full in Hgen. rewrite E in Hgen. discriminate. }
+  rewrite gen_full_eq in Hgen by exact Hnb.
   destruct (mcode g) as [m|] eqn:Em.
   - destruct (calladdr g) as [ca|] eqn:Ec; try discriminate.
     inversion Hgen; subst w'; clear Hgen.
@@ -334,7 +350,7 @@ Proof.
   - destruct (fresh w code) eqn:Efr; try discriminate.
     inversion Hgen; subst w'; clear Hgen.
     destruct (fresh_spec _ _ Efr) as [Hrange [Hcu Hcl]].
-    set (g1 := mkfn (addr g) (redirect_bytes (addr g) code) (Some code) (Some code) DNone
+    set (g1 := mkfn (addr g) (redirect_bytes (addr g) code) (Some code) (Some code) (data g)
                     (linked g) (S (gens g)) (wrap_entries g)).
     assert (Hok' : fn_ok ((code, KCode f) :: registry w) (undef_addr w) f g1).
     { constructor.
@@ -525,9 +541,9 @@ Section CallProofs.
             * intros Hs. pose proof (settled_impl _ _ _ Hcur Hs) as Hn. discriminate.
             * right. split; [rewrite Hwe; reflexivity|exact Hs1].
         - cbn. unfold gen_full in Egen.
-          destruct (data g0); try (inversion Egen; intros _; discriminate).
-          destruct (mcode g0); [destruct (calladdr g0)|destruct (fresh w code)];
-            inversion Egen; intros _; discriminate. }
+          destruct (data g0); try (inversion Egen; intros _; discriminate);
+          (destruct (mcode g0); [destruct (calladdr g0)|destruct (fresh w code)];
+            inversion Egen; intros _; discriminate). }
       destruct (mcode g) eqn:Em.
       + apply Hgen.
       + destruct orc as [|code orc']; [cbn; intros _; discriminate|]. apply Hgen.
